@@ -283,6 +283,13 @@ def run_once(gen, tl, trigger, reinit=False, pending=4, double=False):
                 if f.crc_ok:
                     model.apply(f.typ, f.data, f.to)
             out["reinit_diff"] = RM.diff(model.expected(), H.snapshot(ctx["at"]))[:4]
+            # the second life, idle on a healthy link for more than two heartbeat timeouts:
+            # one connection, a heartbeat every 300 s, no reset
+            await asyncio.sleep(700.0)
+            await quiesce(loop)
+            out["reinit_opens"] = sum(1 for _, _, k, d in log.since(m2) if k == "NET.open")
+            out["reinit_heartbeats"] = sum(1 for t, c, k in ctx["world"].console.requests()
+                                           if k == "version_request")
             await ctx["at"].shutdown()
         elif reinit:
             w = ctx["sockworld"]
@@ -422,6 +429,10 @@ def judge(gen, tl, trig, o, reinit):
                 len(o["reinit_requests"]) != 7:
             # the six discovery requests once each, then the first heartbeat
             v("reinit-does-not-behave-like-a-fresh-object", requests=o["reinit_requests"][:16])
+        elif o.get("reinit_opens") != 1 or o.get("reinit_heartbeats") != 4:
+            # (handshake's version request + heartbeats at T0, T0+300, T0+600)
+            v("second-life-does-not-behave-like-a-fresh-object", connections=o.get("reinit_opens"),
+              version_requests=o.get("reinit_heartbeats"))
         else:
             obs["reinit_ok"] = 1
     if reinit and "reopen_conns" in o:
